@@ -181,6 +181,7 @@ func producerOracle(m *MsgDesc, steps [][2]string) string {
 
 func suiteC18(c *Ctx) []Suite {
 	return []Suite{
+		{Name: "producers/simultaneous-renames", Gen: func(c *Ctx) []Case { return simultaneousRenames(c, true) }},
 		{Name: "producers/refused-renames-and-counts", Gen: func(c *Ctx) []Case {
 			// FillVariables on a message refuses what the list factory refuses: two variables of one
 			// list that end up under one name (a string value renames a list variable), a name that
@@ -521,7 +522,7 @@ func genArgTok(r *rand.Rand, kind string, names *nameGen, o *GenOpt) string {
 	return genNumTok(r)
 }
 
-const itemKeys = "bytes str vars size"
+const itemKeys = "bytes str vars size fisl"
 
 func suiteC12(c *Ctx) []Suite {
 	return []Suite{
@@ -921,6 +922,16 @@ func suiteC16(c *Ctx) []Suite {
 			for _, s := range []string{"\u00e9", "caf\u00e9", "25\u00b0C", "\u00ff", "\u0080", "a\u00b5b", "\u0100", "\u540d"} {
 				out = append(out, Case{Op: "ctor ascii " + hxs(s), Decisive: true, Nontrivial: true, Tags: []string{"non-ascii-text"}}.fields("vars size bytes"))
 				out = append(out, Case{Op: "fillitem " + (&Node{Kind: "L", Slots: []Slot{{Child: &Node{Kind: "AV", Name: "unit", Min: 0, Max: -1}}}}).Proto() + " | 1 " + hxs("unit") + " " + strTok(s), Decisive: true, Nontrivial: true, Tags: []string{"non-ascii-text"}}.fields("vars size bytes"))
+			}
+			// the empty item on its own (size 0, no variable, no bytes), and what an ASCII node tells
+			// about the text it takes: (-2,-2) for a value, the declared bounds for a variable
+			out = append(out, Case{Op: "item E", Decisive: true, Nontrivial: true, Tags: []string{"bare-empty-item"}}.fields("vars size bytes fisl"))
+			for _, lim := range [][2]int{{0, -1}, {0, 0}, {1, 1}, {3, 3}, {0, 7}, {2, -1}, {2, 9}, {16777215, 16777215}, {0, 16777215}, {5, 4}, {1, 0}} {
+				out = append(out, Case{Op: fmt.Sprintf("ctor asciivar %s %d %d", hxs("lot"), lim[0], lim[1]), Decisive: true, Nontrivial: true, Tags: []string{"fill-in-length"}}.fields("vars size fisl"))
+				out = append(out, Case{Op: "item " + (&Node{Kind: "AV", Name: "lot", Min: lim[0], Max: lim[1]}).Proto(), Decisive: true, Nontrivial: true, Tags: []string{"fill-in-length"}}.fields("vars size fisl"))
+			}
+			for _, sv := range []string{"", "a", "LOT-0042"} {
+				out = append(out, Case{Op: "ctor ascii " + hxs(sv), Decisive: true, Nontrivial: true, Tags: []string{"fill-in-length"}}.fields("vars size fisl"))
 			}
 			for i := 0; i < c.N(4000); i++ {
 				o := GenOpt{MaxDepth: 4, MaxSlots: 5, PVar: 0.3, PEllipsis: 0.15}
